@@ -8,7 +8,8 @@
    and zone-database zones lz_of_zone z included), configuration lists, instants `now` and trees. *)
 From Coq Require Import List ZArith.
 Require Import MTX.Lib.Civil MTX.Model.C26_RecPath MTX.Proofs.C26_RecPath MTX.Model.C26_Zone MTX.Proofs.C26_Zone
-               MTX.Model.C31_DeleteSeg MTX.Model.C30_Cleaner MTX.Proofs.C30_Cleaner.
+               MTX.Model.C31_DeleteSeg MTX.Model.C30_Cleaner MTX.Proofs.C30_Cleaner
+               MTX.Model.C30_Owner MTX.Proofs.C30_Owner.
 Import ListNotations.
 Local Open Scope Z_scope.
 
@@ -128,6 +129,59 @@ Theorem C30_listed_start_near_zone : forall B z ts u n, zone_ok B z = true ->
 Proof. exact decoded_near_zone. Qed.
 Print Assumptions C30_listed_start_near_zone.
 
+(* ---- literal bytes of the record path stand for themselves (regexp metacharacters - the dots of cam.1, v1.0/
+   and .mp4 - included): look-alike siblings and layouts where %path is part of the file name.
+
+   One owner: under a record path whose only variable-width group is %path (single_owner_format: every '%'
+   starts a placeholder, %path once, no %z - every documented layout, flat ones like rec/%path_%Y-%m-%d_%H-%M-%S-%f
+   included) a file name is a segment of at most one path name, whatever bytes the two names are made of
+   (cam.1 / camA1 / cam11; names are only required not to contain '%', which no valid path name does). *)
+Theorem C30_one_owner : forall L rp ext pn pn' v r r',
+  single_owner_format rp = true ->
+  Forall (fun x => x <> 37) pn -> Forall (fun x => x <> 37) pn' -> Forall (fun x => x <> 37) ext ->
+  decode_lz L (path_format rp ext pn) v = Some r -> decode_lz L (path_format rp ext pn') v = Some r' ->
+  pn = pn'.
+Proof. exact one_owner_format. Qed.
+Print Assumptions C30_one_owner.
+
+(* ... so when all configurations share such a record path (pathDefaults), a deleted file that is a segment of
+   path name pn' was deleted under the retention of the configuration pn' itself resolves to (deleteAfter <> 0,
+   start <= now - deleteAfter) - never under the retention of a sibling whose name looks like pn' *)
+Theorem C30_sibling_own_retention : forall L rematch resolve confs now tree e rp ext pn' r',
+  Forall (fun c => pc_rp c = rp /\ pc_ext c = ext) confs ->
+  single_owner_format rp = true -> Forall (fun x => x <> 37) ext ->
+  In e (deleted L rematch resolve confs now tree) ->
+  Forall (fun x => x <> 37) pn' -> decode_lz L (path_format rp ext pn') (fst e) = Some r' ->
+  exists j c p u n, resolve pn' = Some j /\ nth_error confs j = Some c /\ pc_da c <> 0 /\
+    decode_lz L (seg_format c pn') (fst e) = Some (p, u, n) /\ start_ns u n <= now - pc_da c.
+Proof. exact sibling_own_retention_format. Qed.
+Print Assumptions C30_sibling_own_retention.
+
+(* the converse for ANY record path (several %path, any literal bytes): once some file e' makes a
+   regular-expression configuration report pn, every expired segment of pn is deleted *)
+Theorem C30_all_expired_discovered : forall L rematch resolve confs now tree e e' pn i ci u' n' j c p u n,
+  In e' tree -> nth_error confs i = Some ci -> pc_regex ci = true ->
+  recognises L (pc_rp ci ++ pc_ext ci) e' = Some (pn, u', n') -> rematch i pn = true ->
+  In e tree -> snd e = KOther -> resolve pn = Some j -> nth_error confs j = Some c -> pc_da c <> 0 ->
+  valid_path_name pn = true -> under (common_path (seg_format c pn)) (fst e) = true ->
+  decode_lz L (seg_format c pn) (fst e) = Some (p, u, n) -> start_ns u n <= now - pc_da c ->
+  In e (deleted L rematch resolve confs now tree).
+Proof. exact all_expired_discovered. Qed.
+Print Assumptions C30_all_expired_discovered.
+
+(* Finding (KNOWN_FINDINGS multi-path-ambiguous-name; C26 degenerate-format): with %path twice the report can
+   fail for the recorder's own file - /r/%path.%path_%s, path cam.1: the first lazy group stops at the dot
+   inside the name, the re-encode comparison rejects the file, the path is never reported and its expired
+   segment stays (C30_all_expired_recorded asks for wf_format: %path once). *)
+Theorem C30_multi_path_refuted :
+  exists L rematch resolve confs now tree e pn c t,
+    nth_error confs 0 = Some c /\ pc_regex c = true /\ pc_da c <> 0 /\ resolve pn = Some 0%nat /\
+    rematch 0%nat pn = true /\ valid_path_name pn = true /\ In e tree /\ snd e = KOther /\
+    fst e = encode_go (pc_rp c ++ pc_ext c) pn t /\ start_ns (i_unix t) (i_ns t) <= now - pc_da c /\
+    deleted L rematch resolve confs now tree = [].
+Proof. exact multi_path_refuted. Qed.
+Print Assumptions C30_multi_path_refuted.
+
 (* doRun processes the paths one after the other on the shrinking tree: what is left is exactly the
    complement of `deleted` (the order of the path names does not matter) *)
 Theorem C30_sequential_pass : forall L rematch resolve confs now tree e,
@@ -157,3 +211,24 @@ Example C30_example :
   path_names (fixed_lz 0) rematch confs tree = [[97]; [97]; [97]; [97;47;98]] /\
   length (run_seq (fixed_lz 0) rematch resolve confs now tree) = 6%nat.
 Proof. vm_compute. repeat split. Qed.
+
+(* non-vacuity of the sibling theorems: flat layout /rec/%path_%s shared by static cam.1 (10 s), static camA1
+   (deleteAfter 0) and a catch-all (1 h); same starts for cam.1, camA1 and cam11: only cam.1's old segment and
+   cam11's (catch-all, older than 1 h) go - camA1's, the fresh ones, cam.1_..._mp4 and cam#1 stay *)
+Definition rp_flat : list Z := [47;114;101;99;47; 37;112;97;116;104; 95; 37;115].   (* /rec/%path_%s *)
+Definition fseg (name : list Z) (u : Z) : list Z := encode_go (rp_flat ++ mp4) name (mkI u 0 0).
+Example C30_example_flat :
+  let cam_1 := [99;97;109;46;49] in let camA1 := [99;97;109;65;49] in let cam11 := [99;97;109;49;49] in
+  let confs := [mkPC cam_1 false rp_flat mp4 10000000000; mkPC camA1 false rp_flat mp4 0;
+                mkPC [97;108;108] true rp_flat mp4 3600000000000] in
+  let rematch := fun (_ : nat) (_ : list Z) => true in
+  let resolve := fun p : list Z => if bytes_eqb p cam_1 then Some 0%nat else if bytes_eqb p camA1 then Some 1%nat else Some 2%nat in
+  let now := 1704103200 * 1000000000 in
+  let old := 1704096000 in let fresh := 1704103195 in
+  let tree := [([47;114;101;99], KDir); (fseg cam_1 old, KOther); (fseg cam_1 fresh, KOther);
+               (fseg camA1 old, KOther); (fseg cam11 old, KOther); (fseg cam11 1704101400, KOther);
+               (removelast (removelast (removelast (removelast (fseg cam_1 old)))) ++ [95;109;112;52], KOther);
+               (fseg [99;97;109;35;49] old, KOther)] in
+  single_owner_format rp_flat = true /\
+  map fst (deleted (fixed_lz 0) rematch resolve confs now tree) = [fseg cam_1 old; fseg cam11 old].
+Proof. vm_compute. split; reflexivity. Qed.
